@@ -66,6 +66,13 @@ benign("rename-private-functions", "private functions renamed across the recorde
        ("cmd/thermal-writer/bufferedfile.go", "bufferedFile", "flushingFile", True), ("cmd/thermal-writer/bufferedfile.go", "newBufferedFile", "newFlushingFile", True), ("cmd/thermal-writer/thermalraw.go", "bufferedFile", "flushingFile", True), ("cmd/thermal-writer/thermalraw.go", "newBufferedFile", "newFlushingFile", True),
        (CF, "renameTempRecording", "publishRecording", True), (CF, "recordingFinalName", "finalNameOf", True), (CF, "newRecordingTempName", "tempName", True), (CF, "checkDiskSpace", "enoughDisk", True))
 
+benign("throttle-start-reads-remembered-fields", "maybeStartRecording takes no arguments and reads the fields StartRecording stored first (correct refactor)",
+       (TH, "\tif err := throttler.maybeStartRecording(background, tempThresh); err != nil {\n\t\treturn err\n\t}\n\tif !throttler.recording {\n\t\tlog.Print(\"recording not started due to throttling\")\n\t\tthrottler.listener.WhenThrottled()\n\t}\n\tthrottler.backgroundFrame = background\n\tthrottler.tempThresh = tempThresh\n\treturn nil",
+        "\tthrottler.backgroundFrame = background\n\tthrottler.tempThresh = tempThresh\n\tif err := throttler.maybeStartRecording(); err != nil {\n\t\treturn err\n\t}\n\tif !throttler.recording {\n\t\tlog.Print(\"recording not started due to throttling\")\n\t\tthrottler.listener.WhenThrottled()\n\t}\n\treturn nil", False),
+       (TH, "\t\tif err := throttler.maybeStartRecording(throttler.backgroundFrame, throttler.tempThresh); err != nil {", "\t\tif err := throttler.maybeStartRecording(); err != nil {", False),
+       (TH, "func (throttler *ThrottledRecorder) maybeStartRecording(background *cptvframe.Frame, tempThresh uint16) error {\n\tif throttler.bucket.Available() >= throttler.minRecordingLength {\n\t\tif err := throttler.recorder.StartRecording(background, tempThresh); err != nil {",
+        "func (throttler *ThrottledRecorder) maybeStartRecording() error {\n\tif throttler.bucket.Available() >= throttler.minRecordingLength {\n\t\tif err := throttler.recorder.StartRecording(throttler.backgroundFrame, throttler.tempThresh); err != nil {", False))
+
 here = os.path.dirname(os.path.abspath(__file__))
 for f in os.listdir(os.path.join(here, "benign")):
     os.unlink(os.path.join(here, "benign", f))
